@@ -170,4 +170,68 @@ def iq (einc kinc : α → α → α) (a b c : α) : α :=
   iq3 (volume a b c) (surfaceArea einc kinc a b c)
 end Ellipsoid
 
+/-! ### attribute state, setters and histories
+
+The four classes keep nothing but their attributes (`_radius` / `_a,_b[,_c]`, `_centroid`): every getter above is a
+function of them and no getter writes anything.  A shape reached through its setters is therefore the same as the
+freshly constructed one; this is the state machine the harness drives the implementation through (construct, read
+everything, assign axes / centre in any order, failed assignments, `to_hoomd`). -/
+
+/-- the attributes (`radius` of Circle/Sphere is `a`; unused axes of the 1- and 2-axis classes are never read) -/
+structure St (α : Type) where
+  a : α
+  b : α
+  c : α
+  cen : V3 α
+
+inductive Step (α : Type) where
+  /-- `shape.a = v` / `shape.radius = v` -/
+  | setA (v : α)
+  /-- `shape.b = v` -/
+  | setB (v : α)
+  /-- `shape.c = v` -/
+  | setC (v : α)
+  /-- `shape.centroid = q` / `shape.center = q` -/
+  | setCen (q : V3 α)
+  /-- any property getter -/
+  | read
+  /-- `to_hoomd()` (Sphere, Ellipsoid): `old = self.centroid; self.centroid = [0,0,0]; ...; self.centroid = old` -/
+  | toHoomd
+
+/-- one statement; the axis setters are `if value > 0: self._x = value else: raise ValueError` -/
+def St.apply (s : St α) : Step α → Except String (St α)
+  | .setA v => if lit 0 < v then pure { s with a := v } else throw "ValueError"
+  | .setB v => if lit 0 < v then pure { s with b := v } else throw "ValueError"
+  | .setC v => if lit 0 < v then pure { s with c := v } else throw "ValueError"
+  | .setCen q => pure { s with cen := q }
+  | .read => pure s
+  | .toHoomd =>
+      let old := s.cen
+      let s1 : St α := { s with cen := ⟨lit 0, lit 0, lit 0⟩ }
+      pure { s1 with cen := old }
+
+/-- a raising statement leaves the object as it was (the `raise` precedes the assignment) -/
+def St.step (s : St α) (st : Step α) : St α :=
+  match s.apply st with
+  | .ok s' => s'
+  | .error _ => s
+
+/-- did the statement raise? -/
+def St.raises (s : St α) (st : Step α) : Bool :=
+  match s.apply st with
+  | .ok _ => false
+  | .error _ => true
+
+def St.run (s : St α) (steps : List (Step α)) : St α := steps.foldl St.step s
+
+/-- which statements of a history raise -/
+def St.trace (s : St α) : List (Step α) → List Bool
+  | [] => []
+  | st :: rest => s.raises st :: (s.step st).trace rest
+
+/-- `__init__`: the axis setters in order `a, b, c` (those the class has), then the centroid -/
+def construct (axes : List α) (cen : V3 α) : Except String (St α) := do
+  validate axes
+  pure ⟨axes.getD 0 (lit 1), axes.getD 1 (lit 1), axes.getD 2 (lit 1), cen⟩
+
 end Curved
